@@ -70,9 +70,9 @@ func c36newPool() *c36pool {
 
 func (p *c36pool) pick(label string) Name { return p.names[vfChoice(label, len(p.names))] }
 
-// c36payload: 0..2 symbolic bytes.
+// c36payload: 0..2 (thorough 3) symbolic bytes.
 func c36payload(label string) []byte {
-	return vfBytes(label, vfLen(label+" len", 0, 2))
+	return vfBytes(label, vfLen(label+" len", 0, 2+vfTier()))
 }
 
 // c36body builds a body of the given kind (index into c36kindNames) with symbolic contents.
@@ -303,6 +303,9 @@ func VerifC36_types() {
 	kind := vfChoice("kind", len(c36kindNames))
 	body := c36body(kind, pool)
 	owner := pool.names[vfChoice("owner", 3)*2] // ".", "x.a." (same as the question: full pointer), "pq.a." (suffix pointer)
+	if vfTier() > 0 {
+		owner = pool.pick("owner (thorough)")
+	}
 	c36place(&m, vfChoice("section", 3), c36resource(owner, body))
 	packed, plain := c36roundtrip(&m)
 	if len(packed) < len(plain) {
@@ -337,7 +340,7 @@ func VerifC36_compress() {
 		c36place(&m, 2, ns)
 	}
 	if thorough {
-		soa := c36resource(pool.names[1], &SOAResource{NS: pool.names[3], MBox: pool.names[4], Serial: vfU32("serial")})
+		soa := c36resource(pool.names[0], &SOAResource{NS: pool.names[3], MBox: pool.names[0], Serial: vfU32("serial")})
 		c36place(&m, 2, soa)
 	}
 	packed, plain := c36roundtrip(&m)
